@@ -19,7 +19,7 @@
 #include <vector>
 
 using namespace sim;
-namespace simfs { uint64_t faultCount(); }
+namespace simfs { uint64_t faultCount(); size_t openDirCount(); size_t openFileCount(); }
 
 enum Code { F_OPEN = 1, F_WRITE, F_WRITESTR, F_READ, F_READALL, F_SEEK, F_SIZE, F_CLOSE, F_COPY, F_RENAME, F_UNLINK, F_EXISTS, F_SYMLINK, D_CREATE, D_UNLINK, D_EXISTS, D_LIST, P_SIMPLIFY, P_DECOMP, P_REL, CODE_N };
 static const char* codeName[] = {"?", "open", "write", "write(String)", "read", "readAll", "seek", "size", "close", "copy", "rename", "unlink", "exists", "symlink", "Directory::create", "Directory::unlink", "Directory::exists", "Directory::list", "simplifyPath", "decompose", "getRelativePath"};
@@ -256,6 +256,8 @@ static void mainTask(void*) {
   simfs::enable(true);
   for (size_t i = 0; i < s.plan.size() && !C.stop; ++i) { C.opIndex = (int)i; doOp(s.plan[i]); }
   closeSlot(C.slot[0]); closeSlot(C.slot[1]);
+  /* fault-free histories: every descriptor and directory stream the library opened has been closed again (the two File objects are closed, Directory objects are scoped) */
+  if (!simfs::faultCount()) { if (simfs::openDirCount()) fail("C19/directory_stream_left_open", "%zu directory streams opened by the library were never closed", simfs::openDirCount()); if (simfs::openFileCount()) fail("C19/descriptor_left_open", "%zu file descriptors opened by the library were never closed", simfs::openFileCount()); }
   simfs::enable(false);
 }
 
